@@ -314,6 +314,48 @@ def make_spell(view, nseg, nspell):
     return q
 
 
+def make_mutated(view, nseg, nspell):
+    """a request is parsed, the application edits what it was given in place (value lists popped / extended / sorted, keys
+    deleted and added - a solver choice), then another request carrying the identical text is parsed: it holds what was
+    sent, and so does a third one"""
+    table = SPELLINGS[:nspell]
+
+    def q(i1: int, i2: int, i3: int, edit: int):
+        idx = [i1, i2, i3][:nseg]
+        for i in idx:
+            assume(0 <= i < len(table))
+        assume(0 <= edit <= 3)
+        qs = "&".join([table[i] for i in idx])
+        stubs_c18.use_unquote(unquote)
+        first = observe(Request, view, qs)
+        want = ref_decode(qs, unquote)
+        bad = compare(first, want, name(view) + " (first request)")
+        if bad:
+            return bad
+        for k in list(first.keys()):
+            v = first[k]
+            if isinstance(v, list):
+                cover("list-edited")
+                if edit == 0:
+                    v.pop()
+                elif edit == 1:
+                    v.append("added-by-the-application")
+                elif edit == 2:
+                    v.reverse()
+                else:
+                    del v[:]
+            elif edit == 3:
+                del first[k]
+        first["added-key"] = "x"
+        for which in ("second", "third"):
+            bad = compare(observe(Request, view, qs), want, name(view) + " (%s request, same text, after the application "
+                          "edited the first one's container in place)" % which)
+            if bad:
+                return bad
+        return None
+    return q
+
+
 # ---------------------------------------------------------------- (b) round trip, real quote_plus / unquote
 KEYS = ["a b", "&=+%", "k", "é€", "k=", "\x00\U0001f600&"]
 SPECIAL_VALUES = ["", "+", "&", "=", "%", " ", "a=b&c=d", "%41", "é", "€\U0001f600", "\x00\n", "/?#;", "+ +", "%2B"]
@@ -562,6 +604,12 @@ def queries(tier):
                      "%s of every '&'-join of %d segments from %r; real unquote and FormsDict"
                      % (name(view), nseg, SPELLINGS[:nsp]), timeout=200 if not T else 900,
                      expect_cover=["repeated-key"], family="spell"))
+    for view, nseg, nsp in ([("query", 2, 6), ("forms", 2, 6)] if not T else [("query", 3, 8), ("forms", 3, 8), ("params-b", 2, 8)]):
+        out.append(Q("mutated/%s/seg%d" % (view, nseg), make_mutated(view, nseg, nsp),
+                     "%s of every '&'-join of %d segments from %r, parsed for one request, the container edited in place by "
+                     "the application (pop / append / reverse / clear of value lists, keys deleted and added: solver choice), "
+                     "then the identical text parsed for a second and a third request" % (name(view), nseg, SPELLINGS[:nsp]),
+                     timeout=200 if not T else 900, expect_cover=["repeated-key", "list-edited"], family="mutated"))
 
     # (b) round trip
     def rt(view, npairs, nkeys, nspecial, vmax, timeout):
